@@ -398,6 +398,10 @@ def pp_pat(p):
         return '&' + pp_pat(p['pat'])
     if k == 'PRange':
         return 'range'
+    if k == 'PSlice':
+        return '[' + ', '.join([pp_pat(x) for x in p.get('before') or []] + (['%s..' % pp_pat(p['mid'])] if p.get('mid') else []) + [pp_pat(x) for x in p.get('after') or []]) + ']'
+    if k == 'PGuard':
+        return pp_pat(p['pat']) + ' if ..'
     return k or '?'
 
 def pp(n, ind=0, out=None):
